@@ -214,7 +214,9 @@ fn read_stream(
                         ));
                     }
                     // returned scratch is the tail of the supplied one
-                    let (rp, rl) = (rest.as_ptr() as usize, rest.len());
+                    // (an empty returned scratch has no position: it stands for "nothing left")
+                    let rl = rest.len();
+                    let rp = if rl == 0 { before_scratch.0 + before_scratch.1 } else { rest.as_ptr() as usize };
                     if rp + rl != before_scratch.0 + before_scratch.1 || rl > before_scratch.1 {
                         return Err(fail("io", format!("{} message {}: returned scratch is not the tail of the supplied one", who, mi), cj()));
                     }
